@@ -521,7 +521,13 @@ func (g *graph) TopologicalSort() ([]string, error) {
 		return nil
 	}
 
+	// visit in a deterministic order (not Go's map order)
+	nodes := make([]string, 0, len(g.vertices))
 	for node := range g.vertices {
+		nodes = append(nodes, node)
+	}
+	sort.Strings(nodes)
+	for _, node := range nodes {
 		if !visited[node] {
 			if err := visit(node); err != nil {
 				return nil, err
